@@ -737,6 +737,18 @@ func FetchWithParallelRangeRequests(client *http.Client, rawURL string, cfg *Fet
 			return
 		}
 
+		// A chunk is exactly its range. A server that ignores Range answers
+		// 200 with the whole resource: take this chunk's slice of it. Anything
+		// else of the wrong length (a short 206, a different 200 body) would
+		// otherwise be stitched into a result that is not the resource.
+		if resp.StatusCode == http.StatusOK && int64(len(data)) == contentLength {
+			data = data[rangeStart : rangeEnd+1]
+		}
+		if want := rangeEnd - rangeStart + 1; int64(len(data)) != want {
+			resultCh <- chunkResult{index: index, err: fmt.Errorf("range %d-%d returned %d bytes, want %d", rangeStart, rangeEnd, len(data), want), hedge: isHedge}
+			return
+		}
+
 		elapsed := time.Since(start)
 		mu.Lock()
 		completionTimes = append(completionTimes, elapsed)
